@@ -13,6 +13,7 @@ import (
 	"log/slog"
 	"os"
 	"path/filepath"
+	"sync"
 	"testing"
 	"time"
 
@@ -39,6 +40,12 @@ type c18Case struct {
 	// TinyCache gives the VFS file a two-page cache, so that nearly every compared page is fetched from the replica
 	// through the page index (an entry that still points at a retired level-0 file cannot hide behind a cached copy).
 	TinyCache bool `json:"tiny_cache,omitempty"`
+	// Hydrate: 0 = pages are always fetched from the replica; 1 = background hydration into a temporary local file;
+	// 2 = hydration into a persistent local file (kept across "vfs-reopen", resumed from its .meta companion).
+	// A "vfs-open"/"vfs-reopen" with N=1 parks the hydration goroutine after it captured the position it hydrates to,
+	// N=2 parks it just before it declares itself complete (phase hook); "vfs-hydrate-finish" lets it go on. Polls and
+	// primary activity in between are thereby placed inside the hydration.
+	Hydrate int `json:"hydrate,omitempty"`
 }
 
 func genC18(t *rapid.T) c18Case {
@@ -52,8 +59,16 @@ func genC18(t *rapid.T) c18Case {
 	ops := []lsw.Op{{K: "insert", T: 0, N: 12, S: 2}, {K: "syncwait"}}
 	n := rapid.IntRange(8, 30).Draw(t, "steps")
 	opened := false
+	hydrate := rapid.SampledFrom([]int{0, 0, 1, 2, 2}).Draw(t, "hydrate")
+	openOp := func() []lsw.Op {
+		o := lsw.Op{K: "vfs-open"}
+		if hydrate > 0 {
+			o.N = rapid.SampledFrom([]int{0, 0, 1, 2}).Draw(t, "parkHydration")
+		}
+		return []lsw.Op{o}
+	}
 	if rapid.IntRange(0, 2).Draw(t, "openEarly") > 0 {
-		ops = append(ops, lsw.Op{K: "vfs-open"})
+		ops = append(ops, openOp()...)
 		opened = true
 	}
 	for i := 0; i < n; i++ {
@@ -77,7 +92,7 @@ func genC18(t *rapid.T) c18Case {
 			// several replicated transactions of different kinds (growth, shrink by VACUUM or by incremental vacuum,
 			// in-place change) picked up by ONE poll
 			if !opened {
-				ops = append(ops, lsw.Op{K: "vfs-open"})
+				ops = append(ops, openOp()...)
 				opened = true
 			}
 			for k := rapid.IntRange(2, 4).Draw(t, "episodeFiles"); k > 0; k-- {
@@ -106,8 +121,35 @@ func genC18(t *rapid.T) c18Case {
 			ops = append(ops, lsw.Op{K: "snapshot"})
 		case r < 90 || !opened:
 			if !opened {
-				ops = append(ops, lsw.Op{K: "vfs-open"})
+				ops = append(ops, openOp()...)
 				opened = true
+			} else if hydrate > 0 && rapid.IntRange(0, 3).Draw(t, "hydrateOp") == 0 {
+				if rapid.Bool().Draw(t, "finishOrReopen") {
+					ops = append(ops, lsw.Op{K: "vfs-hydrate-finish"})
+				} else {
+					// the replica moves on (and may compact / retire files) while the VFS file is closed
+					ops = append(ops, lsw.Op{K: "vfs-close"})
+					for k := rapid.IntRange(0, 3).Draw(t, "downSteps"); k > 0; k-- {
+						a := rapid.IntRange(0, 90).Draw(t, "a")
+						switch rapid.IntRange(0, 3).Draw(t, "downKind") {
+						case 0:
+							ops = append(ops, lsw.Op{K: "insert", T: 0, N: rapid.SampledFrom([]int{1, 12, 30}).Draw(t, "n"), S: rapid.IntRange(1, 3).Draw(t, "size")})
+						case 1:
+							ops = append(ops, lsw.Op{K: "update", T: 0, A: a, B: rapid.IntRange(a, 100).Draw(t, "b")})
+						case 2:
+							ops = append(ops, lsw.Op{K: "delete", T: 0, A: a, B: rapid.IntRange(a, 100).Draw(t, "b")}, lsw.Op{K: "vacuum"})
+						default:
+							ops = append(ops, lsw.Op{K: "delete", T: 0, A: a, B: rapid.IntRange(a, 100).Draw(t, "b")}, lsw.Op{K: "incvacuum", N: rapid.IntRange(0, 10).Draw(t, "n")})
+						}
+						ops = append(ops, lsw.Op{K: "sleep", N: 2}, lsw.Op{K: "syncwait"})
+						if rapid.Bool().Draw(t, "downCompact") {
+							ops = append(ops, lsw.Op{K: "compact", L: rapid.IntRange(1, cfg.Levels).Draw(t, "level")})
+						}
+					}
+					ro := openOp()
+					ro[0].K = "vfs-reopen"
+					ops = append(ops, ro...)
+				}
 			} else {
 				ops = append(ops, lsw.Op{K: "vfs-poll"})
 			}
@@ -136,10 +178,103 @@ func genC18(t *rapid.T) c18Case {
 		}
 	}
 	if !opened {
-		ops = append(ops, lsw.Op{K: "vfs-open"})
+		ops = append(ops, openOp()...)
 	}
 	ops = append(ops, lsw.Op{K: "syncwait"}, lsw.Op{K: "vfs-reset"}, lsw.Op{K: "vfs-poll"})
-	return c18Case{Cfg: cfg, Ops: ops, TinyCache: rapid.Bool().Draw(t, "tinyCache")}
+	if hydrate > 0 {
+		ops = append(ops, lsw.Op{K: "vfs-hydrate-finish"})
+	}
+	return c18Case{Cfg: cfg, Ops: ops, TinyCache: rapid.Bool().Draw(t, "tinyCache"), Hydrate: hydrate}
+}
+
+// hydGate parks the background hydration goroutine of the VFS file at a named phase (hook in /repo, verif build tag)
+// until the harness lets it go on.
+type hydGate struct {
+	mu      sync.Mutex
+	phase   string        // phase to park at ("" = none armed)
+	arrived chan struct{} // closed when the goroutine reached the phase
+	resume  chan struct{} // closed to let it continue
+	parked  bool
+}
+
+func (g *hydGate) arm(phase string) {
+	g.mu.Lock()
+	g.phase, g.arrived, g.resume, g.parked = phase, make(chan struct{}), make(chan struct{}), false
+	g.mu.Unlock()
+}
+
+func (g *hydGate) disarm() { g.release() }
+
+func (g *hydGate) hook(_ *litestream.VFSFile, phase string) {
+	g.mu.Lock()
+	if g.phase != phase || g.parked {
+		g.mu.Unlock()
+		return
+	}
+	g.parked = true
+	arrived, resume := g.arrived, g.resume
+	g.mu.Unlock()
+	close(arrived)
+	<-resume
+}
+
+// waitParked waits until the hydration goroutine reached the armed phase (or hydration ended without reaching it).
+func (g *hydGate) waitParked(vf *litestream.VFSFile) bool {
+	g.mu.Lock()
+	arrived := g.arrived
+	g.mu.Unlock()
+	if arrived == nil {
+		return false
+	}
+	for k := 0; k < 20000; k++ {
+		select {
+		case <-arrived:
+			return true
+		default:
+		}
+		if _, complete, _, err := vf.VerifHydration(); complete || err != nil {
+			return false
+		}
+		time.Sleep(500 * time.Microsecond)
+	}
+	return false
+}
+
+// release lets a parked (or still to be parked) hydration goroutine continue; reports whether it was parked.
+func (g *hydGate) release() bool {
+	g.mu.Lock()
+	defer g.mu.Unlock()
+	was := g.parked
+	if g.resume != nil {
+		close(g.resume)
+	}
+	g.phase, g.arrived, g.resume, g.parked = "", nil, nil, false
+	return was
+}
+
+// hydWait waits (bounded; no oracle depends on it) until the background hydration is complete or failed.
+func hydWait(vf *litestream.VFSFile, res *core.Result, mayStayDisabled bool) {
+	n := 20000
+	if mayStayDisabled {
+		n = 400 // a time-travel request switches hydrated reads off and nothing switches them on again
+	}
+	for k := 0; k < n; k++ {
+		enabled, complete, _, err := vf.VerifHydration()
+		if !enabled {
+			res.Labels = append(res.Labels, "hydration-not-started")
+			return
+		}
+		if err != nil {
+			res.Labels = append(res.Labels, "hydration-error")
+			return
+		}
+		if complete {
+			res.Labels = append(res.Labels, "reads-from-hydrated-file")
+			return
+		}
+		time.Sleep(500 * time.Microsecond)
+	}
+	res.Labels = append(res.Labels, "hydration-not-complete-in-time")
 }
 
 func maskHdr(b []byte) []byte {
@@ -184,10 +319,14 @@ func execC18(c c18Case) (res core.Result) {
 	ctx := context.Background()
 	res.Key = core.HashJSON(c)
 	var vf *litestream.VFSFile
+	hyd := &hydGate{}
+	litestream.VerifVFSPhaseHook = hyd.hook
 	defer func() {
+		hyd.release()
 		if vf != nil {
 			_ = vf.Close()
 		}
+		litestream.VerifVFSPhaseHook = nil
 	}()
 	shrinkSeen, polledAfterCompaction := false, false
 	pollAteShrink := false
@@ -303,6 +442,7 @@ func execC18(c c18Case) (res core.Result) {
 	var tsAtStep []time.Time
 	locked, polledLocked := false, false
 	var curT *time.Time
+	ttSinceOpen := false
 	for i, o := range c.Ops {
 		if os.Getenv("VERIF_TRACE") != "" && vf != nil {
 			sz, _ := vf.FileSize()
@@ -311,24 +451,98 @@ func execC18(c c18Case) (res core.Result) {
 		switch o.K {
 		case "sleep":
 			time.Sleep(time.Duration(o.N) * time.Millisecond)
-		case "vfs-open":
+		case "vfs-open", "vfs-reopen":
 			if vf != nil || lsw.MaxL0(w.ReplicaDir) == 0 {
 				continue
 			}
-			vf = litestream.NewVFSFile(file.NewReplicaClient(w.ReplicaDir), "c18.db", discard)
-			vf.PollInterval = time.Hour // the background ticker never fires; polls are issued by the harness
-			if c.TinyCache {
-				vf.CacheSize = 2 * c.Cfg.PageSize
-			}
-			if err := vf.Open(); err != nil {
-				res.Violation = &core.Violation{Oracle: "open-error", Msg: fmt.Sprintf("step %d: VFSFile.Open: %v", i, err)}
-				vf = nil
-				return res
+			if c.Hydrate > 0 {
+				v := litestream.NewVFS(file.NewReplicaClient(w.ReplicaDir), discard)
+				v.PollInterval = time.Hour // the background ticker never fires; polls are issued by the harness
+				if c.TinyCache {
+					v.CacheSize = 2 * c.Cfg.PageSize
+				}
+				v.HydrationEnabled = true
+				if c.Hydrate == 2 {
+					v.HydrationPath = filepath.Join(w.Dir, "c18-hydrated.db")
+				}
+				switch o.N {
+				case 1:
+					hyd.arm("hydration_position")
+				case 2:
+					hyd.arm("hydration_before_complete")
+				}
+				f, _, err := v.Open("c18.db", sqlite3vfs.OpenMainDB|sqlite3vfs.OpenReadOnly)
+				if err != nil {
+					hyd.disarm()
+					res.Violation = &core.Violation{Oracle: "open-error", Msg: fmt.Sprintf("step %d: VFS.Open: %v", i, err)}
+					return res
+				}
+				vf = f.(*litestream.VFSFile)
+				res.Labels = append(res.Labels, fmt.Sprintf("hydration-mode-%d", c.Hydrate))
+				if o.K == "vfs-reopen" && c.Hydrate == 2 {
+					res.Labels = append(res.Labels, "persistent-hydration-reopened")
+				}
+				ttSinceOpen = false
+				if o.N == 0 {
+					hydWait(vf, &res, false)
+				} else if hyd.waitParked(vf) {
+					res.Labels = append(res.Labels, "hydration-parked-"+hyd.phase)
+				}
+			} else {
+				vf = litestream.NewVFSFile(file.NewReplicaClient(w.ReplicaDir), "c18.db", discard)
+				vf.PollInterval = time.Hour // the background ticker never fires; polls are issued by the harness
+				if c.TinyCache {
+					vf.CacheSize = 2 * c.Cfg.PageSize
+				}
+				if err := vf.Open(); err != nil {
+					res.Violation = &core.Violation{Oracle: "open-error", Msg: fmt.Sprintf("step %d: VFSFile.Open: %v", i, err)}
+					vf = nil
+					return res
+				}
 			}
 			pollAteShrink = false
+			curT = nil
 			setCursor()
 			if shrinkNotFullRewrite(w, 0, vf.Pos().TXID) {
 				shrinkSeen = true
+			}
+			if v := compare(i, o, nil); v != nil {
+				res.Violation = v
+				return res
+			}
+		case "vfs-close":
+			if vf == nil || locked {
+				continue
+			}
+			hyd.release()
+			_ = vf.Close()
+			vf = nil
+			curT = nil
+		case "vfs-hydrate-finish":
+			if vf == nil || c.Hydrate == 0 || locked {
+				continue
+			}
+			wasParked := hyd.release()
+			hydWait(vf, &res, ttSinceOpen)
+			if wasParked {
+				res.Labels = append(res.Labels, "hydration-finished-after-park")
+			}
+			if vf.TargetTime() != nil {
+				// hydration that completes while a historical view is installed must leave the view alone
+				if curT == nil {
+					continue
+				}
+				res.Labels = append(res.Labels, "hydration-finished-during-time-travel")
+				if v := compare(i, lsw.Op{K: "vfs-poll"}, curT); v != nil {
+					if v.Oracle == "page-read-error" {
+						res.Labels = append(res.Labels, "time-travel-files-retired")
+						continue
+					}
+					v.Msg = "after hydration finished under time travel: " + v.Msg
+					res.Violation = v
+					return res
+				}
+				continue
 			}
 			if v := compare(i, o, nil); v != nil {
 				res.Violation = v
@@ -431,6 +645,7 @@ func execC18(c c18Case) (res core.Result) {
 				continue
 			}
 			res.Labels = append(res.Labels, "time-travel")
+			ttSinceOpen = true
 			tt := T
 			curT = &tt
 			setCursor()
